@@ -4,24 +4,28 @@ import MQ.Inv.RingDefs
 
 `writers` counts exactly the sender handles in the ghost list `sl`, `ncons s` the receiver handles in
 `cl s`; a handle whose cached state is Uni/Single (or a view handle) that is counted is the *only* counted
-handle of its kind; a thread inside a call holds a counted handle that nobody else uses. From this the
+handle of its kind; a thread inside a call holds a handle that nobody else uses (`busy`). From this the
 hypotheses `ModeOK` of the ring argument follow (`modeOK_of_minv`).
+
+Scope: executions without the two futures handle conversions (`into_single` / `into_multi` of the *futures*
+receivers), which re-wire a handle to another stream inside one call (`TLoc.noconv`).
 -/
 namespace MQ
 
-/-- calls that use a sender handle -/
-def Outer.isSend : Outer → Bool
-  | .trySend | .startSend _ _ => true
+/-- the two futures handle conversions -/
+def Outer.futConv : Outer → Bool
+  | .intoSingleFut | .intoMultiFut => true
   | _ => false
 
-/-- calls that end the life of the handle -/
-def Outer.isDrop : Outer → Bool
-  | .drop | .unsub => true
+/-- calls that use the view API (only a uni receiver offers them) -/
+def Outer.viewCall : Outer → Bool
+  | .tryRecvView | .recvView | .futTryRecvView | .futRecvView | .poll true => true
   | _ => false
 
 /-- program points of `try_send` (the handle is a counted sender) -/
 def PC.sendOp : PC → Bool
-  | .s0 | .m1 | .sh _ | .st _ _ | .g1 _ _ _ | .g2 _ _ _ _ _ _ | .g3 _ _ _ _ _ | .tcs _ _ | .tcc _ _ _ | .tcl _
+  | .s0 | .u1 .sendStart | .u2 .sendStart _ | .u3 .sendStart _
+  | .m1 | .sh _ | .st _ _ | .g1 _ _ _ | .g2 _ _ _ _ _ _ | .g3 _ _ _ _ _ | .tcs _ _ | .tcc _ _ _ | .tcl _
   | .rf _ _ | .hd _ _ | .tg _ | .wr _ _ | .ts _ _ | .od _ | .sy | .spl => true
   | _ => false
 
@@ -32,120 +36,149 @@ def PC.singleSendX : PC → Bool
 
 /-- program points of the receive programs (the handle is a counted receiver of stream `x.s`) -/
 def PC.recvOp : PC → Bool
-  | .r0 | .la1 | .la2 | .w0 _ | .c1 _ _ _ | .c2 _ _ _ _ | .wy _ _ _ | .wl _ _ | .wcvw _ _ | .wblk _ _ | .pk _ _ | .psl => true
+  | .r0 | .u1 .recvStart | .u2 .recvStart _ | .u3 .recvStart _ | .la1 | .la2 | .w0 _ | .c1 _ _ _ | .c2 _ _ _ _
+  | .wy _ _ _ | .wl _ _ | .wcvw _ _ | .wblk _ _ | .pk _ _ | .psl | .nf true 12 => true
   | pc => pc.recvActive
 
 def PC.viewPC : PC → Bool
   | .v1 _ | .v2 _ | .v3 _ | .vw _ _ | .vd _ _ | .v4 _ _ => true
   | _ => false
 
-/-- after its decrement the last consumer removes the stream -/
-def PC.remPC : PC → Bool
-  | .rr1 | .rr2 _ _ | .rr3 _ | .rr4 | .rr5 => true
+/-- sender clone in progress -/
+def PC.cloneS : PC → Bool
+  | .gt1 .cloneS | .gt2 .cloneS | .cs1 => true
   | _ => false
 
-/-- handle `g` is counted: in `sl` if it is a sender, in `cl s` if it is a receiver of stream `s` -/
-def counted (σ : St) (g s : Nat) : Prop :=
-  if (σ.hs g).sender then g ∈ σ.sl else g ∈ σ.cl s
+/-- the last consumer is about to take its stream off the list -/
+def PC.remPC : PC → Bool
+  | .rr1 | .rr2 _ _ => true
+  | _ => false
 
-/-- the handle whose count the `dr1` decrement takes back -/
-def Th.dropTarget (x : Th) : Nat := if x.outer = Outer.intoSingleFut then x.ng else x.g
+/-- a new handle has been counted and waits to be handed out -/
+def PC.afterNew : PC → Bool
+  | .f1 .addFree _ | .f2 .addFree | .f3 .addFree | .f4 .addFree _ _ | .f5 .addFree | .f7 .addFree | .f8 .addFree
+  | .f9 .addFree _ | .f10 .addFree | .gt1 .retNew | .gt2 .retNew | .ret .new => true
+  | _ => false
+
+/-- which continuation a manager sub-program may carry (static) -/
+def PC.kOK : PC → Bool
+  | .u1 k | .u2 k _ | .u3 k _ =>
+      (match k with | .sendStart | .recvStart | .rmTok _ => true | _ => false)
+  | .gt1 k | .gt2 k => (match k with | .cloneS | .retNew => true | _ => false)
+  | .f1 k _ | .f2 k | .f3 k | .f4 k _ _ | .f5 k | .f7 k | .f8 k | .f9 k _ | .f10 k =>
+      (match k with | .addFree | .rmFree1 | .rmFree2 | .rmTokFree _ => true | _ => false)
+  | .nf lst k => k != 10 && (k != 12 || lst)
+  | _ => true
+
+/-- the record of a handle under construction -/
+def newHd (h : Hd) (sender : Bool) : Prop :=
+  h.sender = sender ∧ h.alive = false ∧ h.used = true ∧ h.busy = false ∧ h.view = false
 
 /-- per-thread facts -/
 structure TLoc (σ : St) (x : Th) : Prop where
-  /-- the handle of a call is marked busy -/
-  busy : x.pc ≠ .idle → (σ.hs x.g).busy = true
-  /-- send and receive programs run on a counted handle of the right kind -/
+  busy : x.pc ≠ .idle → (σ.hs x.g).busy = true ∧ (σ.hs x.g).used = true
+  noconv : x.pc ≠ .idle → x.outer.futConv = false
+  vo : x.pc ≠ .idle → x.outer.viewCall = true → (σ.hs x.g).view = true
+  kok : x.pc.kOK = true
+  /-- the handle of a call that does not end its life stays counted -/
+  cnt : x.pc ≠ .idle → (σ.hs x.g).alive = true →
+    ((σ.hs x.g).sender = true → x.g ∈ σ.sl) ∧ ((σ.hs x.g).sender = false → x.g ∈ σ.cl (σ.hs x.g).stream)
+  arcOK : ∀ r, x.pc = .arc r → r ≠ .single ∧ r ≠ .new
+  /-- the stream recorded at the call is the handle's stream -/
+  strm : x.pc ≠ .idle → x.s = (σ.hs x.g).stream
   snd : x.pc.sendOp = true → x.g ∈ σ.sl ∧ (σ.hs x.g).sender = true
   sndUni : x.pc.singleSendX = true → (σ.hs x.g).uni = true
   rcv : x.pc.recvOp = true → x.g ∈ σ.cl x.s ∧ (σ.hs x.g).sender = false
   rcvSingle : x.pc.recvActive = true → x.pc.viewPC = false → x.single = true → (σ.hs x.g).uni = true
   rcvView : x.pc.viewPC = true → (σ.hs x.g).view = true
-  /-- clone -/
-  cs : x.pc = .cs1 → x.g ∈ σ.sl ∧ (σ.hs x.g).sender = true ∧ (σ.hs x.g).uni = false ∧ x.ng ∉ σ.sl
-  cr : x.pc = .cr1 → x.g ∈ σ.cl x.s ∧ (σ.hs x.g).sender = false ∧ x.ng ∉ σ.cl x.s
-  /-- drop -/
-  ds : x.pc = .ds1 → x.g ∈ σ.sl ∧ (σ.hs x.g).sender = true
-  dr : (x.pc = .un1 ∨ x.pc = .dr1) → x.dropTarget ∈ σ.cl x.s
-  rem : x.pc.remPC = true → σ.cl x.s = []
-  /-- add_stream -/
-  add : x.pc.addPC = true → x.g ∈ σ.cl x.s ∧ (σ.hs x.g).sender = false ∧ σ.cl x.ns = []
+  cs : x.pc.cloneS = true →
+    x.g ∈ σ.sl ∧ (σ.hs x.g).sender = true ∧ (σ.hs x.g).uni = false ∧ newHd (σ.hs x.ng) true ∧ (σ.hs x.ng).uni = false
+  cr : x.pc = .cr1 →
+    x.g ∈ σ.cl x.s ∧ (σ.hs x.g).sender = false ∧ (σ.hs x.g).view = false ∧ newHd (σ.hs x.ng) false ∧
+    (σ.hs x.ng).uni = false ∧ (σ.hs x.ng).stream = x.s
+  ds : x.pc = .ds1 → x.g ∈ σ.sl
+  dr : (x.pc = .un1 ∨ x.pc = .dr1) → x.g ∈ σ.cl x.s
+  rem : x.pc.remPC = true → σ.cl x.s = [] ∧ σ.est x.s = true
+  add : x.pc.addPC = true →
+    x.g ∈ σ.cl x.s ∧ (σ.hs x.g).sender = false ∧ σ.cl x.ns = [] ∧ newHd (σ.hs x.ng) false ∧ (σ.hs x.ng).stream = x.ns
   isg : x.pc = .isg → x.g ∈ σ.cl x.s ∧ (σ.hs x.g).sender = false
+  retS : x.pc = .ret .single → x.outer = .intoSingle → σ.cl x.s = [x.g]
+  /-- the new handle is counted, on the stream it will report -/
+  aft : x.pc.afterNew = true → (x.outer = .clone ∨ x.outer = .addStream) →
+    (σ.hs x.ng).alive = false ∧ (σ.hs x.ng).used = true ∧ (σ.hs x.ng).busy = false ∧
+    ((σ.hs x.ng).sender = true → x.ng ∈ σ.sl) ∧ ((σ.hs x.ng).sender = false → x.ng ∈ σ.cl (σ.hs x.ng).stream)
+
+/-- the thread is creating a handle `ng` -/
+def Th.creating (y : Th) : Prop :=
+  y.pc.cloneS = true ∨ y.pc = .cr1 ∨ y.pc.addPC = true ∨ (y.pc.afterNew = true ∧ (y.outer = .clone ∨ y.outer = .addStream))
 
 structure MInv (σ : St) : Prop where
   wr : σ.writers = σ.sl.length
-  slnd : σ.sl.Nodup
   nc : ∀ s, σ.ncons s = (σ.cl s).length
-  clnd : ∀ s, (σ.cl s).Nodup
   thr : ∀ t, TLoc σ (σ.th t)
   /-- two threads inside calls use different handles -/
   excl : ∀ t u, t ≠ u → (σ.th t).pc ≠ .idle → (σ.th u).pc ≠ .idle → (σ.th t).g ≠ (σ.th u).g
   /-- a counted handle in Uni / Single mode, or a view handle, is the only counted one -/
   uniS : ∀ g, g ∈ σ.sl → (σ.hs g).uni = true → σ.sl = [g]
   uniR : ∀ g s, g ∈ σ.cl s → ((σ.hs g).uni = true ∨ (σ.hs g).view = true) → σ.cl s = [g]
-  /-- kinds: `sl` holds senders, `cl` receivers -/
-  slKind : ∀ g, g ∈ σ.sl → (σ.hs g).sender = true ∧ (σ.hs g).used = true
-  clKind : ∀ g s, g ∈ σ.cl s → (σ.hs g).sender = false ∧ (σ.hs g).used = true
   /-- a stream with a counted handle is registered -/
   clReg : ∀ s, σ.cl s ≠ [] → reg σ.ring s
   /-- idle live handles are counted, on their own stream -/
   idleS : ∀ g, (σ.hs g).alive = true → (σ.hs g).busy = false → (σ.hs g).sender = true → g ∈ σ.sl
   idleR : ∀ g, (σ.hs g).alive = true → (σ.hs g).busy = false → (σ.hs g).sender = false → g ∈ σ.cl (σ.hs g).stream
-  /-- a busy handle belongs to some thread inside a call -/
-  busyOwner : ∀ g, (σ.hs g).busy = true → ∃ t, (σ.th t).pc ≠ .idle ∧ (σ.th t).g = g
+  aliveUsed : ∀ g, (σ.hs g).alive = true → (σ.hs g).used = true
+  /-- counted handles have been handed out, with the right kind -/
+  slKind : ∀ g, g ∈ σ.sl → (σ.hs g).sender = true ∧ (σ.hs g).used = true
+  clKind : ∀ g s, g ∈ σ.cl s → (σ.hs g).sender = false ∧ (σ.hs g).used = true ∧ (σ.hs g).stream = s
+  /-- two threads never create the same handle -/
+  nginj : ∀ t u, t ≠ u → (σ.th t).creating → (σ.th u).creating → (σ.th t).ng ≠ (σ.th u).ng
 
 theorem list_eq_singleton_mem {l : List Nat} {a b : Nat} (h : l = [a]) (hb : b ∈ l) : b = a := by
   subst h; simpa using hb
+
+theorem sendOp_of_sendActive {pc : PC} (h : pc.sendActive = true) : pc.sendOp = true := by
+  cases pc <;> simp [PC.sendActive, PC.sendOp] at h ⊢
+theorem singleSendX_of_singleSend {pc : PC} (h : pc.singleSend = true) : pc.singleSendX = true ∧ pc.sendOp = true := by
+  cases pc <;> simp_all [PC.singleSend, PC.singleSendX, PC.sendOp]
+theorem recvOp_of_recvActive {pc : PC} (h : pc.recvActive = true) : pc.recvOp = true := by
+  cases pc <;> simp [PC.recvActive, PC.recvOp] at h ⊢
+theorem singleRecv_facts {x : Th} (h : x.singleRecv = true) :
+    x.pc.recvActive = true ∧ (x.pc.viewPC = false → x.single = true) := by
+  obtain ⟨pc, g', v', outer, ff, pn, ng, ns, s, single, aux⟩ := x
+  cases pc <;> simp_all [Th.singleRecv, PC.recvActive, PC.viewPC]
+theorem not_idle_of_sendOp {pc : PC} (h : pc.sendOp = true) : pc ≠ .idle := by
+  intro e; subst e; cases h
+theorem not_idle_of_recvOp {pc : PC} (h : pc.recvOp = true) : pc ≠ .idle := by
+  intro e; subst e; cases h
 
 /-- the mode hypotheses of the ring argument follow from the handle accounting -/
 theorem modeOK_of_minv {σ : St} (M : MInv σ) : ModeOK σ := by
   refine ⟨?_, ?_, ?_, ?_⟩
   · intro t u htu ht hu
-    have Lt := M.thr t
-    have Lu := M.thr u
-    have h1 : (σ.th t).pc.sendOp = true := by
-      cases hp : (σ.th t).pc <;> rw [hp] at ht <;> simp [PC.sendActive, PC.sendOp] at ht ⊢
-    have h2 : (σ.th u).pc.singleSendX = true := by
-      cases hp : (σ.th u).pc <;> rw [hp] at hu <;> simp_all [PC.singleSend, PC.singleSendX]
-    have h3 : (σ.th u).pc.sendOp = true := by
-      cases hp : (σ.th u).pc <;> rw [hp] at hu <;> simp_all [PC.singleSend, PC.sendOp]
-    have gt := (Lt.snd h1).1
-    have gu := (Lu.snd h3).1
-    have e := M.uniS _ gu (Lu.sndUni h2)
+    have h1 := sendOp_of_sendActive ht
+    obtain ⟨h2, h3⟩ := singleSendX_of_singleSend hu
+    have gt := ((M.thr t).snd h1).1
+    have gu := ((M.thr u).snd h3).1
+    have e := M.uniS _ gu ((M.thr u).sndUni h2)
     have := list_eq_singleton_mem e gt
-    have nt : (σ.th t).pc ≠ .idle := by intro e'; rw [e'] at ht; cases ht
-    have nu : (σ.th u).pc ≠ .idle := by intro e'; rw [e'] at hu; cases hu
-    exact M.excl t u htu nt nu this
+    exact M.excl t u htu (not_idle_of_sendOp h1) (not_idle_of_sendOp h3) this
   · intro t u htu ht hu hs
-    have Lt := M.thr t
-    have Lu := M.thr u
-    have h1 : (σ.th t).pc.recvOp = true := by
-      cases hp : (σ.th t).pc <;> rw [hp] at ht <;> simp [PC.recvActive, PC.recvOp] at ht ⊢
-    have ha : (σ.th u).pc.recvActive = true := by
-      unfold Th.singleRecv at hu
-      cases hp : (σ.th u).pc <;> rw [hp] at hu <;> simp_all [PC.recvActive]
-    have h3 : (σ.th u).pc.recvOp = true := by
-      cases hp : (σ.th u).pc <;> rw [hp] at ha <;> simp_all [PC.recvActive, PC.recvOp]
-    have gt := (Lt.rcv h1).1
-    have gu := (Lu.rcv h3).1
+    have h1 := recvOp_of_recvActive ht
+    obtain ⟨ha, hsingle⟩ := singleRecv_facts hu
+    have h3 := recvOp_of_recvActive ha
+    have gt := ((M.thr t).rcv h1).1
+    have gu := ((M.thr u).rcv h3).1
     have hflag : (σ.hs (σ.th u).g).uni = true ∨ (σ.hs (σ.th u).g).view = true := by
       by_cases hv : (σ.th u).pc.viewPC = true
-      · exact Or.inr (Lu.rcvView hv)
+      · exact Or.inr ((M.thr u).rcvView hv)
       · have hv' : (σ.th u).pc.viewPC = false := by simpa using hv
-        have : (σ.th u).single = true := by
-          unfold Th.singleRecv at hu
-          cases hp : (σ.th u).pc <;> rw [hp] at hu hv' <;> simp_all [PC.viewPC]
-        exact Or.inl (Lu.rcvSingle ha hv' this)
+        exact Or.inl ((M.thr u).rcvSingle ha hv' (hsingle hv'))
     have e := M.uniR _ _ gu hflag
     rw [hs] at gt
     have := list_eq_singleton_mem e gt
-    have nt : (σ.th t).pc ≠ .idle := by intro e'; rw [e'] at ht; cases ht
-    have nu : (σ.th u).pc ≠ .idle := by intro e'; rw [e'] at ha; cases ha
-    exact M.excl t u htu nt nu this
+    exact M.excl t u htu (not_idle_of_recvOp h1) (not_idle_of_recvOp h3) this
   · intro t ht
-    have h1 : (σ.th t).pc.recvOp = true := by
-      cases hp : (σ.th t).pc <;> rw [hp] at ht <;> simp [PC.recvActive, PC.recvOp] at ht ⊢
-    have := ((M.thr t).rcv h1).1
+    have := ((M.thr t).rcv (recvOp_of_recvActive ht)).1
     exact M.clReg _ (List.ne_nil_of_mem this)
   · intro t ht
     have := ((M.thr t).add ht).1
